@@ -202,7 +202,7 @@ class Gen:
         h = self.halves()
         if not h:
             return None
-        return ("end", self.r.choice(h), self.r.choice(["close", "rst", "midline"]))
+        return ("end", self.r.choice(h), self.r.choice(["close", "rst", "midline", "quit", "quit"]))
 
     def g_reuser(self, live):
         if not live:
